@@ -37,6 +37,7 @@ mod props {
 	pub mod c15;
 	pub mod c16;
 	pub mod c05;
+	pub mod c17;
 }
 mod alloc;
 mod corpus;
@@ -136,6 +137,11 @@ fn real_main() {
 			"C05" => {
 				engines::stream::run(&mut out, &mut rng.fork(), thorough);
 				props::c05::run(&mut out, &mut rng.fork(), thorough);
+			}
+			"C17" => {
+				// guards: read_handler / ChunkReader::read vs the model, incl. over-reports
+				engines::chunker::run_guards(&mut out, &mut rng.fork(), thorough);
+				props::c17::run(&mut out, &mut rng.fork(), thorough);
 			}
 			// Development entry for the JSON model slice (not a property id).
 			"JSONDEV" => {
